@@ -145,19 +145,21 @@ def work_walk(item):
     ops = [[["pref", "BrailleCode", a_code], ["mathml", terms.doc(t)], ["braille", ""], ["pref", "BrailleCode", b_code], ["braille", ""],
             ["pref", "BrailleCode", a_code], ["braille", ""], ["pref", "BrailleCode", b_code], ["mathml", terms.doc(t)], ["braille", ""]] for _, _, t, _ in built]
     _, res = mc.run_cases(setup, ops)
+    # the yardstick: the same expressions in a session that has only ever used code B
+    _, res_b = mc.run_cases(setup + [["pref", "BrailleCode", b_code]], [[["mathml", terms.doc(t)], ["braille", ""]] for _, _, t, _ in built])
     viol, counts, nontriv = [], {"evaluations": 0, "skipped_panics": 0, "rejected": 0, "literals_checked": 0, "braille_errors_left_to_C15": 0}, []
-    for (label, sh, t, planted), r in zip(built, res):
+    for (label, sh, t, planted), r, rb in zip(built, res, res_b):
         counts["evaluations"] += 1
-        if any(is_panic(x) for x in r):
+        if any(is_panic(x) for x in r) or any(is_panic(x) for x in rb):
             counts["skipped_panics"] += 1
             continue
         if not is_ok(r[1]):
             counts["rejected"] += 1
             continue
-        if not is_ok(r[4]) or not is_ok(r[9]):
+        if not is_ok(r[4]) or not is_ok(r[9]) or not is_ok(rb[1]):
             counts["braille_errors_left_to_C15"] += 1
             continue
-        b, fresh = unhighlight(val(r[4])), unhighlight(val(r[9]))
+        b, again, fresh = unhighlight(val(r[4])), unhighlight(val(r[9])), unhighlight(val(rb[1]))
         nontriv.append(hash((a_code, b_code, b)))
         need = c04.literal_counts(planted)
         replay = {"walk": [a_code, b_code], "label": label, "shape": sh}
@@ -165,11 +167,16 @@ def work_walk(item):
             if lit not in ref:
                 continue
             counts["literals_checked"] += 1
-            got = max(b.count(run) for run in ref[lit])
-            # judged only where the expression set directly under B does render the literal (anything else is the first family's business)
-            if got < need[lit] and max(fresh.count(run) for run in ref[lit]) >= need[lit]:
+            # judged only where a session that never left B does render the literal (anything else is the first family's business)
+            if max(fresh.count(run) for run in ref[lit]) < need[lit]:
+                continue
+            if max(b.count(run) for run in ref[lit]) < need[lit]:
                 viol.append((f"C06|{b_code}|after:{a_code}|missing", f"[{a_code} then {b_code}, same stored expression] {label}: literal {lit} has no cell run {ref[lit][0]!r} in {b!r} "
-                             f"(set directly under {b_code}: {fresh!r})", replay))
+                             f"(in a session that only used {b_code}: {fresh!r})", replay))
+                break
+            if max(again.count(run) for run in ref[lit]) < need[lit]:
+                viol.append((f"C06|{b_code}|after:{a_code}|missing-after-new-set_mathml", f"[{a_code}, {b_code}, {a_code}, then {b_code} with a new set_mathml] {label}: literal {lit} has no cell run {ref[lit][0]!r} in {again!r} "
+                             f"(in a session that only used {b_code}: {fresh!r})", replay))
                 break
     return viol, counts, nontriv
 
